@@ -38,7 +38,8 @@ LEVEL_TEXT = ("Exploration: thousands of trees (all shape classes incl. single n
               " BranchTree instances as inputs."
               " One tree in six is also measured from inside the callbacks of a traversal of another tree."
               " Measurement bundles of twins under custom column names; a densely sampled chain of 40 000 compartments; Sholl with a fixed step and its summary shortcuts."
-              " Half of the front ends are used through a caller that overwrites, in place, every value it is handed.")
+              " Half of the front ends are used through a caller that overwrites, in place, every value it is handed."
+              " Population Sholl profiles at explicit (descending, over-long) radii; bundles under other ambient states.")
 LEVEL_NOTE = ("Encodes these readings: node branch order = depth of a critical node in the branch "
               "tree; L-Measure branch order = furcations on the root path, ends included; tilt = "
               "the smaller angle at the bifurcation between the ray to the parent and a daughter "
